@@ -131,7 +131,7 @@ def gen_cases(rng, tier):
 
     fields_of = lambda kind: FIELDS_ODE if kind == "sys_ode" else FIELDS_PDE
     # (1) all (E, U) combinations x kinds, well-formed weights of every form
-    reps = 1 if quick else 4
+    reps = 2 if quick else 6
     for kind in kinds:
         for E in (1, 2, 3):
             for U in (1, 2, 3):
@@ -159,7 +159,7 @@ def gen_cases(rng, tier):
     # (3) malformed weight specifications must be rejected
     bad_modes = ["dict_missing", "dict_extra", "dict_other_keys", "vector", "dict_vector"]
     for kind in kinds:
-        n = 3 if quick else 10
+        n = 4 if quick else 12
         for _ in range(n):
             E, U = rng.choice([1, 2, 3]), rng.choice([1, 2, 3])
             c = base_case(kind, E, U)
